@@ -26,9 +26,9 @@ import (
 // malformed responses are judged as in the sequential phase.
 
 type concResult struct {
-	req    apiReq
-	resp   apiResp
-	done   bool
+	req  apiReq
+	resp apiResp
+	done bool
 }
 
 var (
